@@ -4,7 +4,7 @@ import vlib, c04, c09, arena
 from vlib import Result, log
 
 THEOREMS = ["C05_route_table", "C05_route_fn", "C05_status_units", "C05_status_unknown", "C05_error_is_500",
-            "C05_pattern_wellformed", "C05_media_refuted", "C05_nonvacuous"]
+            "C05_pattern_wellformed", "C05_media_by_category", "C05_nonvacuous"]
 TARGETS = ["Props/C05.v", "Extract/C05.v"]
 METHODS = ["get", "put", "post", "delete", "head", "patch", "options", "trace"]
 TEMPLATES = ["/pets", "/pets/{petId}", "/pets/{pet-id}/toys/{toyId}", "/a/b/c", "/files/{name}.json", "/x{a}y{b}z", "/",
@@ -65,7 +65,7 @@ def dyn_spec():
             "delete": {"operationId": "delete_item", "parameters": [P("id", "path", S, True)], "responses": {"204": {"description": "gone"}}}},
         "/items": {"post": {"operationId": "create_item", "parameters": [want], "requestBody": {"required": True, "content": J(R("Item"))},
                             "responses": {"201": {"description": "made", "content": J(R("Echo"))}, "409": {"description": "dup", "content": J(R("Problem"))}}},
-                   "get": {"operationId": "list_items", "parameters": [P("limit", "query", I)], "responses": {"200": {"description": "ok", "content": J({"type": "array", "items": R("Echo")})}}}},
+                   "get": {"operationId": "list_items", "parameters": [P("limit", "query", I), P("X-Ids", "header", {"type": "array", "items": I}), P("X-Names", "header", {"type": "array", "items": S})], "responses": {"200": {"description": "ok", "content": J({"type": "array", "items": R("Echo")})}}}},
         "/a/{x}/b/{y}": {"get": {"operationId": "get_ab", "parameters": [P("x", "path", S, True), P("y", "path", I, True)], "responses": {"200": {"description": "ok", "content": J(R("Echo"))}}}},
         "/kind/{kind}": {"get": {"operationId": "get_kind", "parameters": [P("kind", "path", {"type": "string", "enum": ["alpha", "beta"]}, True)],
                                  "responses": {"200": {"description": "ok", "content": J(R("Echo"))}, "400": {"description": "bad"}}}},
@@ -116,7 +116,7 @@ impl S::ApiServer for Svc {
     }
     async fn list_items(&self, r: S::ListItemsRequest) -> anyhow::Result<S::ListItemsResponse> {
         self.note("list_items");
-        Ok(S::ListItemsResponse::Ok(vec![echo(format!("limit={:?}", r.query.limit)), echo("second".to_string())]))
+        Ok(S::ListItemsResponse::Ok(vec![echo(format!("limit={:?}", r.query.limit)), echo(format!("ids={:?} names={:?}", r.header.x_ids, r.header.x_names))]))
     }
     async fn get_ab(&self, r: S::GetAbRequest) -> anyhow::Result<S::GetAbResponse> {
         self.note("get_ab");
@@ -197,8 +197,10 @@ def dyn_probes():
         ("DELETE", "/items/zz%20top", [], None, dict(status=204, calls=["delete_item(zz top)"], empty=True)),
         ("POST", "/items", [], js({"name": "a ü", "qty": -1}), dict(status=201, calls=["create_item"], json=E('name="a ü" qty=Some(-1)'))),
         ("POST", "/items", [("X-Want", "dup")], js({"name": "a"}), dict(status=409, calls=["create_item"], json={"detail": "dup"})),
-        ("GET", "/items?limit=7", [], None, dict(status=200, calls=["list_items"], json=[E("limit=Some(7)"), E("second")])),
-        ("GET", "/items", [], None, dict(status=200, calls=["list_items"], json=[E("limit=None"), E("second")])),
+        ("GET", "/items?limit=7", [], None, dict(status=200, calls=["list_items"], json=[E("limit=Some(7)"), E("ids=None names=None")])),
+        ("GET", "/items", [("X-Ids", "1,22,333"), ("X-Names", "a,b c")], None, dict(status=200, calls=["list_items"], json=[E("limit=None"), E('ids=Some([1, 22, 333]) names=Some(["a", "b c"])')])),
+        # a list header may be written with optional white space after the commas (RFC 9110 5.6.1)
+        ("GET", "/items", [("X-Ids", "1, 22, 333"), ("X-Names", "a, b")], None, dict(status=200, calls=["list_items"], json=[E("limit=None"), E('ids=Some([1, 22, 333]) names=Some(["a", "b"])')])),
         ("GET", "/items?limit=seven", [], None, dict(statuses=range(400, 500), calls=[])),
         ("GET", "/a/p%2Fq/b/42", [], None, dict(status=200, calls=["get_ab"], json=E('x="p/q" y=42'))),
         ("GET", "/a/p/b/-9223372036854775808", [], None, dict(status=200, calls=["get_ab"], json=E('x="p" y=-9223372036854775808'))),
@@ -285,9 +287,7 @@ def dynamic_leg(viol, known_hits):
                 continue
             wantb = want.encode("utf-8") if isinstance(want, str) else want
             if bodyb != wantb or not ct.startswith(exp["ctype"]):
-                if ct.startswith("application/json"):
-                    known_hits.add("payload-always-json")      # recorded: every payload goes out as axum::Json
-                else:
+                if True:
                     viol.append(([what], f"dynamic leg: {what}: body {bodyb[:60]!r} ({ct}), declared {exp['ctype']} carrying {wantb[:60]!r}"))
     return n
 
@@ -358,6 +358,7 @@ def main(tier, seed, replay=None):
     pr = subprocess.run([probe], input="\n".join(c09.hx(n.encode()) for n in allnames) + "\n", stdout=subprocess.PIPE, text=True)
     field_of = {n: c09.unhx(l.split(" ")[0]).decode() for n, l in zip(allnames, pr.stdout.split("\n"))}
     dis, viol, known_hits = [], [], set()
+    enc_q = []
     model_routes = None
     if exe:
         q = []
@@ -474,20 +475,35 @@ def main(tier, seed, replay=None):
                     viol.append((ops, f"variant {arm['variant']} declared for {key!r} is sent with status {st}"))
                 if exe and key in model_status and str(code) != model_status[key]:
                     dis.append(f"status: key {key} impl {code} model {model_status[key]}")
-                if arm["encoder"] and arm["encoder"] != "axum::Json":
-                    dis.append(f"encoder {arm['encoder']}")
-                    jsonish = [ct for o in ops for k, shape in o["responses"] if k == key for ct, sc in shape if ct.endswith("json") and sc is not None]
-                    if jsonish:
-                        viol.append((ops, f"variant {arm['variant']} (key {key}) declares {jsonish[0]} but its payload is sent with the encoder `{arm['encoder']}` instead of JSON"))
-            # media type (F20): a variant whose declared content is not JSON-like but is sent as axum::Json
-        for o in ops:
-            for k, shape in o["responses"]:
-                if any(ct.startswith("text/") or ct == "application/octet-stream" for ct, _ in shape):
-                    known_hits.add("payload-always-json")
+                if arm["encoder"]:
+                    # the payload goes out in the media type declared for the variant: raw for a String declared as
+                    # text / bytes declared as binary, JSON for everything else
+                    ptype = next((v.get("payload") for v in rb["enums"].get(en, []) if v["name"] == arm["variant"]), None)
+                    pt = {"String": "String", "Vec<u8>": "Bytes", "Vec < u8 >": "Bytes"}.get((ptype or "").strip(), "Other")
+                    plain = pt != "Other"
+                    cts = [c04.essence(ct) for o in ops if any(k == key for k, _ in o["responses"])  for k, shape in o["responses"] if k == key for ct, sc in shape if sc is not None]
+                    cats = {("Text" if ct.startswith("text/") and ct != "text/event-stream" else "Binary" if ct in ("application/octet-stream", "application/pdf") or ct.startswith(("image/", "audio/", "video/")) else
+                             "Json" if ct.endswith("json") else "Other") for ct in cts}
+                    enc = "raw" if arm["encoder"] == "data" else arm["encoder"]
+                    enc_q.append((f"enc {sorted(cats)[0] if len(cats) == 1 else 'Mixed'} {pt} {1 if plain else 0}", enc, arm["variant"], key, sorted(cats), ops))
+                    if enc == "raw" and not ((pt == "String" and "Text" in cats) or (pt == "Bytes" and "Binary" in cats)):
+                        viol.append((ops, f"variant {arm['variant']} (key {key}, payload {ptype}) declares {sorted(set(cts))} but its payload is written raw instead of JSON"))
+                    if enc == "axum::Json" and ((cats == {"Text"} and pt == "String") or (cats == {"Binary"} and pt == "Bytes")):
+                        viol.append((ops, f"variant {arm['variant']} (key {key}, payload {ptype}) declares only {sorted(set(cts))} but its payload is sent as JSON"))
+                    if enc not in ("raw", "axum::Json"):
+                        dis.append(f"encoder {arm['encoder']}")
+    # ---- payload encoders against the extracted model (variants whose declared media types fall in one category)
+    single = [q for q in enc_q if " Mixed " not in q[0]]
+    n_enc = 0
+    if exe and single:
+        for (q, enc, vname, key, cats, ops_), r in zip(single, vlib.run_driver(exe, [q[0] for q in single])):
+            n_enc += 1
+            if r != enc:
+                dis.append(f"encoder of variant {vname} (key {key}, categories {cats}): emitted {enc}, model {r} ({q})")
     # ---- the compiled router, run on the loopback interface
     n_dyn = dynamic_leg(viol, known_hits)
     res.oblige("dynamic leg: the generated router was built and answered every probe", n_dyn == len(dyn_probes()), f"{n_dyn} of {len(dyn_probes())} probes observed")
-    res.counts.update({"evaluations": n_eval, "dynamic_probes": n_dyn, "distinct_nontrivial": len(cases), "specs": len(cases),
+    res.counts.update({"evaluations": n_eval, "dynamic_probes": n_dyn, "payload_encoders_compared_with_model": n_enc, "payload_encoders_read_back": len(enc_q), "distinct_nontrivial": len(cases), "specs": len(cases),
                        "traces_validated_against_impl": len(cases) if exe else 0,
                        "rule": "server-mod specs with 1-6 operations over 10 path templates (plain, multi-parameter, mixed literal/parameter segments, names needing sanitising) x 8 methods x response sets; router(), handler functions and IntoResponse arms read back with syn and compared with the extracted model (route table, sent status per key); oracle: exactly one (pattern, method) route per operation, status covered by the declared key, errors -> 500; plus a dynamic leg: a fixed feature spec (10 operations: path / query / header / delimited-array parameters, json / form / optional bodies, text and binary responses, enum and integer path parameters) generated as server-mod, compiled with a recording trait implementation and driven over the loopback interface with raw requests: which handler runs with which values, the status and body of every declared variant, handler errors (500), malformed values (4xx, no handler), undeclared paths (404) and methods (405)"})
     for ops in cases[:3]:
